@@ -105,6 +105,7 @@ def main():
             shutil.rmtree(keep, ignore_errors=True)
             sh(['git', '-C', V, 'checkout', '--', 'lean/PegVerif/Generated'])
     meta['checks'] = results
+    meta['base_commit'] = sh(['git', '-C', '/repo', 'rev-parse', '--short', 'HEAD'])[1].strip()
     meta['what_was_run'] = 'bin/seedtest.py: scratch worktree confirmation (apply, go build, go test . ./set, demo.sh both ways), then bin/check <prop> --tier quick on /repo with the patch applied, then git checkout'
     json.dump(meta, open(os.path.join(dst, 'meta.json'), 'w'), indent=1)
 
